@@ -109,6 +109,7 @@ def random_schedules(ctx, n, devs):
     for p in r.printed:
         if isinstance(p, dict) and "sched" in p:
             key = json.dumps(p, sort_keys=True)
+            p.pop("hist", None)
             if key not in seen:
                 seen.add(key)
                 p["tag"] = ""
@@ -118,7 +119,44 @@ def random_schedules(ctx, n, devs):
     return out
 
 
+def spec_agreement(ctx, n):
+    """behaviours of the INTENDED design (Cache.tla, Deviations = {}) must be linearisable under CacheLin.tla with
+    Deviations = {}: random walks with the model's own results, validated by the linearisation search"""
+    cfg = prep_cfg(ctx, "Cache.Gen.cfg", "gen-intended.cfg", {"Deviations": "{}"})
+    r = ctx.tlc("CacheGen", cfg, workers=1, simulate="num=%d" % n, depth=80, seed=ctx.seed + 17, timeout=900, count_mc=False)
+    walks = [p for p in r.printed if isinstance(p, dict) and p.get("hist")]
+    if len(walks) < n // 2:
+        raise vlib.Infra("intended-design walks: %d of %d (%s)\n%s" % (len(walks), n, r.outcome, r.output[-1500:]))
+    lines = []
+    for i, w in enumerate(walks):
+        lines.append({"t": "reset", "round": "A%d" % i, "level": w["level"], "pers": w["pers"], "lk": w["lk"], "ln": w["ln"],
+                      "init": sorted(w["init"])})
+        lines += [dict(e, round="A%d" % i) for e in w["hist"]]
+    proj, _ = project(lines, drop_unreturned=True)
+    f = ctx.path("agree.ndjson")
+    vlib.write_ndjson(f, proj)
+    best, r2 = tv_lin(ctx, f, "{}", clients='{"t1", "t2", "t3"}')
+    minis = [ln["round"] for ln in proj if ln["t"] == "reset"]
+    bad = [m for m in minis if best.get(m) != []]
+    if bad:
+        raise vlib.Infra("Cache.tla (intended design) and CacheLin.tla disagree: model walks %s are not linearisable; see %s" % (bad[:5], f))
+    return len(walks), len(minis)
+
+
 # ------------------------------------------------------------------ forced-schedule TV
+def standalone(round_lines):
+    """a projected mini-round as a self-contained trace file (ret indices renumbered)"""
+    out, oi = [], {}
+    for e in round_lines:
+        e = dict(e)
+        out.append(e)
+        if e["t"] == "inv":
+            oi[e["c"]] = len(out) - 1
+        elif e["t"] == "ret" and e["c"] in oi:
+            out[oi.pop(e["c"])]["ret"] = len(out)
+    return out
+
+
 def split_rounds(lines):
     out = []
     for ln in lines:
@@ -158,7 +196,7 @@ def nontrivial(round_lines):
 
 
 # ------------------------------------------------------------------ stress / linearisation TV
-def project(lines):
+def project(lines, drop_unreturned=False):
     """per (round, key) mini-rounds (linearisability is local) + index of each call's ret line"""
     rounds, cur = [], None
     for e in lines:
@@ -192,18 +230,29 @@ def project(lines):
                     e["ret"] = 0
                 else:
                     out[oi.pop(e["c"])]["ret"] = len(out)
-            if oi:
+            if oi and not drop_unreturned:
                 raise vlib.Infra("history with a call that never returned: %s" % oi)
+            if oi:   # model walks may end with calls blocked forever: their inv lines carry no obligation
+                dead = set(oi.values())
+                keep = [j for j in range(len(out)) if j not in dead]
+                remap = {j: n for n, j in enumerate(keep)}
+                for j in keep:
+                    if out[j]["t"] == "inv":
+                        out[j]["ret"] = remap[out[j]["ret"] - 1] + 1
+                out = [out[j] for j in keep]
             if gi == 0:
                 out += r["extra"]
     return out, index
 
 
-def tv_lin(ctx, path, devs):
-    cfg = prep_cfg(ctx, "Cache.LinTrace.cfg", "tvl-%s.cfg" % os.path.basename(path), {"Deviations": devs})
+def tv_lin(ctx, path, devs, clients=None):
+    sub = {"Deviations": devs}
+    if clients:
+        sub["Clients"] = clients
+    cfg = prep_cfg(ctx, "Cache.LinTrace.cfg", "tvl-%s.cfg" % os.path.basename(path), sub)
     r = ctx.tlc("CacheLinTrace", cfg, workers=ctx.pick(2, 4), timeout=3000, env={"TRACE_FILE": path}, count_mc=False)
     if r.outcome != "ok":
-        raise vlib.Infra("linearisation search did not run to completion: %s %s\n%s" % (r.outcome, r.violated, (r.cex or r.output[-3000:])))
+        raise vlib.Infra("linearisation search did not run to completion: %s %s\n%s" % (r.outcome, r.violated, r.output[-3000:]))
     best = {}
     for p in r.printed:
         if isinstance(p, dict) and p.get("verdict") == "accepted":
@@ -237,28 +286,37 @@ def frames_of(text, indented):
 def parse_runtime_output(out):
     """race-detector reports and runtime crashes -> trace events (pure projection of the runtime's text)"""
     events = []
+    crashed = re.search(r"(?m)^(fatal error: |panic: )", out) is not None
     for blk in out.split("WARNING: DATA RACE")[1:]:
         blk = blk.split("==================")[0]
         accs = []
         for sec in re.split(r"\n\s*\n", blk):
             if re.match(r"\s*(Previous )?(read|write|atomic \w+) at ", sec, re.I):
                 fr = frames_of(sec, True)
-                if fr:
+                if "failed to restore the stack" in sec:
+                    accs.append({"pkg": "unknown", "fn": "?"})
+                elif fr:
                     accs.append(fr[0])
                 else:  # access made by the caller (harness/std library), e.g. reading the bytes returned by Get
                     fns = [x for x in re.findall(r"(?m)^\s+(\S+)\(\)\s*$", sec) if not x.startswith("runtime.")]
                     accs.append({"pkg": "client", "fn": fns[0] if fns else "?"})
         if len(accs) >= 2:
             events.append({"t": "race", "a": accs[0], "b": accs[1]})
-        else:
-            events.append({"t": "race", "a": {"pkg": "?", "fn": "?"}, "b": {"pkg": "?", "fn": "?"}})
+        elif not crashed:   # (a report cut short by the dying process's own output is skipped)
+            events.append({"t": "race", "a": {"pkg": "unknown", "fn": "?"}, "b": {"pkg": "unknown", "fn": "?"}})
     m = re.search(r"(?m)^(fatal error: [^\n]*|panic: [^\n]*)\n", out)
     if m:
         rest = out[m.end():]
         g = re.search(r"(?ms)^goroutine \d+ [^\n]*\[running\]:\n(.*?)(\n\n|\Z)", rest) or re.search(r"(?ms)^goroutine \d+ [^\n]*:\n(.*?)(\n\n|\Z)", rest)
         fr = [f for f in (frames_of(g.group(1), False) if g else []) if not f["pkg"].startswith("verifharness")]
-        kind = "concurrent-map" if "concurrent map" in m.group(1) else "panic" if m.group(1).startswith("panic:") else "fatal"
-        events.append({"t": "crash", "kind": kind, "msg": m.group(1)[:200], "site": fr[0] if fr else {"pkg": "?", "fn": "?"},
+        msg = m.group(1)
+        if msg.startswith("fatal error:") and "concurrent map" not in msg:
+            # the runtime's message can be interleaved with a race report ("fatal error: ======...")
+            m2 = re.search(r"concurrent map (writes|read and map write|iteration and map write)", out)
+            if m2:
+                msg = "fatal error: " + m2.group(0)
+        kind = "concurrent-map" if "concurrent map" in msg else "panic" if msg.startswith("panic:") else "fatal"
+        events.append({"t": "crash", "kind": kind, "msg": msg[:200], "site": fr[0] if fr else {"pkg": "?", "fn": "?"},
                        "frames": ["%s.%s" % (f["pkg"], f["fn"]) for f in fr]})
     return events
 
@@ -291,8 +349,8 @@ def stress_plan(ctx):
     runs, rid = [], 1000
     for race in (False, True):
         for (level, pers, lk, ln) in combos:
-            cfg = {"level": level, "pers": pers, "lk": lk, "ln": ln, "rounds": ctx.pick(1 if race else 2, 4 if race else 8),
-                   "g": 8, "ops": ctx.pick(15 if race else 20, 40), "keys": 3, "base": rid}
+            cfg = {"level": level, "pers": pers, "lk": lk, "ln": ln, "rounds": ctx.pick(1 if race else 2, 3 if race else 6),
+                   "g": 8, "ops": ctx.pick(15 if race else 20, 30), "keys": 3, "base": rid}
             runs.append((race, cfg))
             rid += cfg["rounds"] + 1
     return combos, runs, rid
@@ -319,7 +377,8 @@ def run(ctx):
         cfg = prep_cfg(ctx, "Cache.MC.cfg", "mc-%s.cfg" % name, sub)
         mc_f.append((cfg, pool.submit(ctx.tlc, "Cache", cfg, workers=mcw, timeout=3000, count_mc=False)))
     wit_f = [pool.submit(run_witness, ctx, j) for j in witness_jobs(ctx, open_tags)]
-    rnd_f = pool.submit(random_schedules, ctx, ctx.pick(120, 1500), devs)
+    rnd_f = pool.submit(random_schedules, ctx, ctx.pick(120, 1000), devs)
+    agr_f = pool.submit(spec_agreement, ctx, ctx.pick(60, 400))
     drv_f = pool.submit(ctx.gobuild, "cache")
     drv = drv_f.result()
     drv_race_f = pool.submit(ctx.gobuild, "cache", True)   # after the plain build (shares the scratch harness copy)
@@ -373,13 +432,13 @@ def run(ctx):
             if e["t"] == "race" and e["a"]["pkg"] == "client" and e["b"]["pkg"] == "client":
                 raise vlib.Infra("data race inside the harness itself: %s\n%s" % (json.dumps(e), p.stdout[-3000:]))
         if not hist:
-            hist = [{"t": "reset", "round": cfg["base"], "level": cfg["level"], "pers": cfg["pers"], "lk": cfg["lk"], "ln": cfg["ln"]}]
+            hist = [{"t": "reset", "round": cfg["base"], "level": cfg["level"], "pers": cfg["pers"], "lk": cfg["lk"], "ln": cfg["ln"], "init": []}]
         all_lines += hist
         calls += sum(1 for e in hist if e["t"] == "inv")
         if events:
             # runtime observations of this process form a round of their own
             all_lines.append({"t": "reset", "round": cfg["base"] + cfg["rounds"], "level": cfg["level"], "pers": cfg["pers"],
-                              "lk": cfg["lk"], "ln": cfg["ln"], "what": "runtime:" + name})
+                              "lk": cfg["lk"], "ln": cfg["ln"], "init": [], "what": "runtime:" + name})
             all_lines += events
             race_events += len(events)
     # probes: minimal unsynchronised Set pair under -race (both persistors), fill-on-miss of an oversize part
@@ -388,7 +447,7 @@ def run(ctx):
         ev = parse_runtime_output(p.stdout)
         if p.returncode not in (0, 66) and not ev:
             raise vlib.Infra("raceprobe %s failed\n%s" % (pers, p.stdout[-2000:]))
-        all_lines.append({"t": "reset", "round": rid, "level": "cache", "pers": pers, "lk": "keys", "ln": 4, "what": "raceprobe"})
+        all_lines.append({"t": "reset", "round": rid, "level": "cache", "pers": pers, "lk": "keys", "ln": 4, "init": [], "what": "raceprobe"})
         all_lines += ev
         race_events += len(ev)
         rid += 1
@@ -396,7 +455,7 @@ def run(ctx):
         ev = parse_runtime_output(p.stdout)
         if p.returncode != 0 and not ev:
             raise vlib.Infra("panicprobe %s failed\n%s" % (pers, p.stdout[-2000:]))
-        all_lines.append({"t": "reset", "round": rid, "level": "part", "pers": pers, "lk": "size", "ln": 1, "what": "panicprobe"})
+        all_lines.append({"t": "reset", "round": rid, "level": "part", "pers": pers, "lk": "size", "ln": 1, "init": [], "what": "panicprobe"})
         all_lines += ev
         race_events += len(ev)
         rid += 1
@@ -408,16 +467,18 @@ def run(ctx):
     # binding self-test 2 input: foreign bytes in a Get result / an unexplained race must be rejected
     victim = None
     for rl in pr:
+        if rl[0]["pers"] != "fs":     # (an unexplained hit of the in-memory persistor is attributed to its open map race)
+            continue
         for i, ln in enumerate(rl):
             if ln["t"] == "ret" and ln["st"] == "hit" and ln["chunks"]:
-                victim = json.loads(json.dumps(rl))
+                victim = standalone(json.loads(json.dumps(rl)))
                 victim[i]["chunks"][0]["k"] = "k9"
                 break
         if victim:
             break
     if not victim:
         raise vlib.Infra("no hit with content in the stress histories")
-    victim.append({"t": "reset", "round": "selftest/race", "level": "cache", "pers": "mem", "lk": "keys", "ln": 2})
+    victim.append({"t": "reset", "round": "selftest/race", "level": "cache", "pers": "mem", "lk": "keys", "ln": 2, "init": []})
     victim.append({"t": "race", "a": {"pkg": "cache", "fn": "Set"}, "b": {"pkg": "cache/evictionpolicy/lfu", "fn": "TrackGet"}})
     vlib.write_ndjson(ctx.path("selftest2.ndjson"), victim)
     st2_f = pool.submit(tv_lin, ctx, ctx.path("selftest2.ndjson"), devs)
@@ -476,6 +537,9 @@ def run(ctx):
     if missing:
         raise vlib.Infra("spec steps never exercised on the real code: %s" % missing)
     ctx.extra["forced"] = dict(stats, rounds_explained=len(accepted), step_coverage=cov, witnesses=[w["witness"] for w in wit])
+    nw, nm = agr_f.result()
+    ctx.log("spec agreement: %d walks of the intended design (%d per-key histories) linearisable under CacheLin.tla" % (nw, nm))
+    ctx.extra["spec_agreement"] = {"walks": nw, "per_key_histories": nm}
     acc1, _, _ = st1_f.result()
     if acc1:
         raise vlib.Infra("binding self-test failed: a corrupted Get result was accepted by CacheTrace")
@@ -490,7 +554,7 @@ def run(ctx):
         m = rl[0]["round"]
         if m not in best:
             rp = ctx.path("replay-stress-%s.ndjson" % m.replace("/", "_"))
-            vlib.write_ndjson(rp, rl)
+            vlib.write_ndjson(rp, standalone(rl))
             rt = [e for e in rl if e["t"] in ("race", "crash")]
             if rt:
                 msg = "runtime events (race detector / crash) not explained by any open deviation, e.g.: %s" % json.dumps(rt[:3])[:900]
